@@ -407,7 +407,13 @@ where
             input = collect(h.bad.1, &mut aig.bad, &mut literal)(input)?.0;
             input = collect(h.inv.1, &mut aig.invariants, &mut literal)(input)?.0;
             input = collect(h.just.1, &mut justice_len, terminated(usize, eol_or_eof))(input)?.0;
-            aig.justice.reserve_elements(justice_len.iter().sum());
+            // Every justice literal needs at least one byte of input: bound the hint (no
+            // overflow of the sum, no reservation by unbacked numbers)
+            let justice_elements = justice_len
+                .iter()
+                .fold(0usize, |s, &n| s.saturating_add(n))
+                .min(input.len());
+            aig.justice.reserve_elements(justice_elements);
             for &n in &justice_len {
                 aig.justice.push_vec();
                 for _ in 0..n {
@@ -497,7 +503,12 @@ where
             input = collect(h.just.1, &mut justice_len, terminated(usize, eol_or_eof))(input)?.0;
 
             // justice
-            let justice_elements = justice_len.iter().sum();
+            // Every justice literal needs at least one byte of input: bound the hint (no
+            // overflow of the sum, no reservation by unbacked numbers)
+            let justice_elements = justice_len
+                .iter()
+                .fold(0usize, |s, &n| s.saturating_add(n))
+                .min(input.len());
             aig.justice.reserve_elements(justice_elements);
             let mut just_spans = Vec::with_capacity(justice_elements);
             for &n in &justice_len {
